@@ -67,6 +67,11 @@ FIXED = [
     ('mediaquery-setter', [{'op': 'setMode', 'v': 0},
                            {'op': 'ctor', 'expr': "setattr(cssutils.stylesheets.MediaQuery('print'), 'mediaText', T)",
                             'text': 'screen and (min-width: 1px) x'}, {'op': 'battery'}]),
+    ('list-member-query-reused', [{'op': 'setMode', 'v': 0},
+                                  {'op': 'ctor', 'expr': "setattr(cssutils.stylesheets.MediaList('screen, print')[0], 'mediaText', T)",
+                                   'text': 'screen foo'}, {'op': 'battery'}]),
+    ('empty-rules-serialised', [{'op': 'setMode', 'v': 0}, {'op': 'serialize', 'rule': 'e{}'},
+                                {'op': 'sertext', 'text': 'e{} f{/*c*/} @media print{g{}} h{i:j}'}, {'op': 'battery'}]),
     ('value-with-semicolon', [{'op': 'setMode', 'v': 0},
                               {'op': 'ctor', 'expr': 'cssutils.css.PropertyValue(T)', 'text': 'red; blue'},
                               {'op': 'ctor', 'expr': 'cssutils.css.CSSVariablesDeclaration(T)', 'text': 'a: 1; b: 2'},
@@ -335,8 +340,11 @@ class C12(Check):
 
     # -- oracle --------------------------------------------------------------------------------------------
     def oracle_fixed(self, ctx):
-        for name, ops in FIXED:
-            self.check_history(ctx, ops, 'fixed:' + name)
+        hists = [O.add_recs([dict(op) for op in ops], self.recs()) for _, ops in FIXED]
+        results = list(self.pool.map(lambda ops: run_worker({'mode': 'history', 'ops': ops, 'snapshot': True}), hists))
+        self.references(hists)
+        for (name, _), ops, res in zip(FIXED, hists, results):
+            self.judge_history(ctx, ops, res, 'fixed:' + name)
 
     def oracle_history(self, ctx):
         rng = ctx.sub_rng('oracle')
@@ -346,19 +354,41 @@ class C12(Check):
             ops = O.gen_oracle_history(rng, rng.randint(15, 45), explicit=(i % 2 == 0), indent=(i % 6 == 0))
             hists.append(O.add_recs(ops, self.recs()))
         results = list(self.pool.map(lambda ops: run_worker({'mode': 'history', 'ops': ops, 'snapshot': True}), hists))
+        self.references(hists)
+        ctx.notes['distinct_explicit_settings_with_isolated_reference'] = len(self._ref)
         for ops, res in zip(hists, results):
             self.judge_history(ctx, ops, res, 'gen')
 
-    def reference(self, ops):
-        """the batteries of the explicit settings alone (fresh process); cached"""
+    def battery_prefixes(self, ops):
+        """for every battery of the history: the explicit settings made before it (as a cache key and as ops)"""
+        out = []
+        explicit = []
+        for op in ops:
+            if O.is_explicit(op):
+                explicit.append(op)
+            elif op['op'] == 'battery':
+                out.append((json.dumps(explicit, sort_keys=True), list(explicit)))
+        return out
+
+    def references(self, histories):
+        """the battery after the explicit settings alone, every probe in a process of its own (forked right after the
+        settings were made): computed once per distinct sequence of explicit settings, in parallel"""
         if not hasattr(self, '_ref'):
             self._ref = {}
-        key = explicit_prefix_key(ops)
-        if key not in self._ref:
-            ref_ops = [op for op in ops if O.is_explicit(op) or op['op'] == 'battery']
-            res = run_worker({'mode': 'history', 'ops': ref_ops})
-            self._ref[key] = [r['battery'] for op, r in zip(ref_ops, res) if op['op'] == 'battery']
-        return self._ref[key]
+        todo = {}
+        for ops in histories:
+            for key, explicit in self.battery_prefixes(ops):
+                if key not in self._ref and key not in todo:
+                    todo[key] = explicit
+        keys = list(todo)
+        results = list(self.pool.map(lambda k: run_worker({'mode': 'history', 'ops': todo[k] + [{'op': 'battery'}],
+                                                            'isolated': True}), keys))
+        for k, res in zip(keys, results):
+            self._ref[k] = res[-1]['battery']
+
+    def reference(self, ops):
+        self.references([ops])
+        return [self._ref[key] for key, _ in self.battery_prefixes(ops)]
 
     def check_history(self, ctx, ops, tag):
         res = run_worker({'mode': 'history', 'ops': ops, 'snapshot': True})
@@ -423,7 +453,13 @@ class C12(Check):
                 if clause in seen_clauses:
                     continue
                 seen_clauses.add(clause)
-                witness = self.shrink(ops[:i + 1], clause) if not ctx.search_mode or True else ops[:i + 1]
+                # minimise the first witness of every clause only (each trial is a fresh process)
+                done = self.__dict__.setdefault('_shrunk', set())
+                if clause not in done and len(done) < 4:
+                    done.add(clause)
+                    witness = self.shrink(ops[:i + 1], clause)
+                else:
+                    witness = ops[:i + 1]
                 ctx.violate(clause, {'ops': witness, 'from': tag}, detail)
             ctx.case(key=json.dumps(ops, sort_keys=True), nontrivial=len(faults) >= 2,
                      kind='oracle:%s:%d-faults' % (tag.split(':')[0], min(len(faults), 3)),
